@@ -184,6 +184,12 @@ def explore(run, driver, budget):
         if not new:
             continue
         caseB = dict(case, election=e2)
+        if i % 3 == 2 or rng.random() < 0.25:
+            # the caller polls with one frame object: the new rows are appended to it, in place, after an earlier poll
+            fh = dict(case.get("frame_history") or {"estimands": list(case["estimands"]), "scale": 1.0})
+            fh["late_ids"] = [r["geographic_unit_fips"] for r in new]
+            caseB["frame_history"] = fh
+            run.count("new rows appended in place to a polled frame")
         check_pair(run, driver, case, caseB, new, pi)
     model_reuse_stage(run, {"quick": 4, "thorough": 200, "search": 30}[budget])
     run.info["bootstrap_cells_equal_within_1e-9_but_not_bitwise"] = P.NOISE["cells"]
